@@ -40,7 +40,7 @@ def run(ctx):
     cfg = "MC_Upstream_fixed.cfg" if ctx.thorough else "MC_Upstream_fixed_quick.cfg"
     r = ctx.mc("redis", "Upstream", cfg, workers=8, timeout=1500, coverage=not ctx.thorough)
     if r.coverage:
-        ctx.check_vacuity(r, "Upstream")
+        ctx.check_vacuity(r, "Upstream", ignore=("WriterFiltered",))  # exercised by MC_Upstream_banned_*.cfg
     # 2. the loss windows of the pinned code are still reachable in the model
     for variant in ("handoff", "send", "reader"):
         ctx.mc("redis", "Upstream", "MC_Upstream_%s.cfg" % variant, workers=4, timeout=300,
